@@ -105,7 +105,9 @@ def gen(seed):
 def expected_reports(spec, res, tw):
     """[(sid, sorted reprs)] per test occurrence with leaked, non-ignored threads."""
     plan = spec['plan']
-    ign = [re.compile(p) for p in spec.get('ignore') or []]
+    # (the patterns the runner was really given: the minimiser may drop the option)
+    ign = [re.compile(x.split('=', 1)[1]) for x in (spec['opt'].get('extra') or [])
+           if x.startswith('--ignore-new-thread=')]
     events = [ev for ev in res.trace if ev[0] == 0]
     occs, _ = C.occurrences(events)
     # timeline index of every thread op
